@@ -28,6 +28,48 @@ CHECKS = {
             "Small-scope hypothesis; integer/half-integer times (exact); 5-decimal rounding lattice kept away "
             "from rounding ties; reading of 'internal gap' stated in the evidence assumptions.",
             "bounded exhaustive explicit-state enumeration of inputs against a step-function reference model"),
+    "C01": (MC, "DESIGN.md §5 C01",
+            "Every pair state of every task adapter's small-scope + deviation-bounded space x every metric function "
+            "x default/single (thorough: pairwise) non-default parameters is executed and each output checked "
+            "against a range table (P01/BIN/LE1/GE0/conditional) whose preconditions are evaluated exactly on the "
+            "input side. Exhaustive within the stated bounds.",
+            "Small-scope hypothesis; range table transcribed from the property text; conditional bounds use "
+            "input-side preconditions that are counted in both branches.",
+            "bounded exhaustive explicit-state enumeration of inputs x configurations with a state invariant"),
+    "C02": (MC, "DESIGN.md §5 C02",
+            "Every single annotation of each task's (deeper) single space is scored against an exact copy of "
+            "itself under every configuration of the deviation-bounded alphabet; optimum table guarded by "
+            "model-side non-degeneracy predicates. Exhaustive within bounds.",
+            "Small-scope hypothesis; non-degeneracy predicates as stated in the property text.",
+            "bounded exhaustive explicit-state enumeration of inputs x configurations with a state invariant"),
+    "C04": (MC, "DESIGN.md §5 C04, Appendix A",
+            "Every pair state x function x configuration is executed on the real code and compared to 1e-9 with an "
+            "independent reference model written from the documented definitions in exact rational arithmetic; the "
+            "models are first bound to the repository's recorded fixture outputs. Exhaustive within bounds.",
+            "Small-scope hypothesis; exact lattices; states where the definition is undefined or within 1e-9 of a "
+            "threshold are skipped and counted; reference models are the trusted base (fixture-validated).",
+            "bounded exhaustive explicit-state enumeration against an independent reference model (conformance)"),
+    "C06": (MC, "DESIGN.md §5 C06",
+            "Edge relation swap on every unordered pair state admissible in both roles x every function with a "
+            "symmetric criterion x its configuration alphabet: exchanged keys must be exchanged, symmetric keys "
+            "equal. Exhaustive within bounds.",
+            "Small-scope hypothesis; a relation that is itself symmetric cannot see a symmetric bug (see C04).",
+            "bounded exhaustive enumeration of state pairs with an edge (two-execution) relation"),
+    "C07": (MC, "DESIGN.md §5 C07",
+            "For every pair state every tolerance chain (ascending values of one tolerance, others default) and "
+            "every nested metric pair is evaluated: scores must be non-decreasing along each edge and ordered "
+            "within each result. Exhaustive within bounds.",
+            "Small-scope hypothesis; tolerance alphabets contain both sides of and exactly each lattice distance.",
+            "bounded exhaustive enumeration of configuration chains with an edge (two-execution) relation"),
+    "C15": (MC, "DESIGN.md §5 C15",
+            "Explicit-state exploration of call histories: 171 call descriptors (all public functions, several "
+            "argument shapes) with arguments taken from one shared pool; all histories of depth 1, all ordered "
+            "pairs, depth 3 over the aliasing-prone subset; invariant: heap digest (pool + module globals) unchanged "
+            "and each result bit-identical to the result from the initial heap; two fresh interpreters run the "
+            "depth-1 layer forward and reversed; separation under two np.empty poisons.",
+            "State hidden outside the digest is only observable through result changes; small fixed inputs per "
+            "descriptor.",
+            "explicit-state exploration of call histories with a heap-digest invariant"),
 }
 
 NOT_YET = {}
